@@ -7,7 +7,7 @@ namespace Tealer.Generated
 structure GFeeValue where
   isUnknown : Bool
   value : Nat
-deriving DecidableEq, Repr
+deriving DecidableEq, Repr, Inhabited
 
 /-- translated from fee_field.FeeField._union -/
 def feeUnion (a b : GFeeValue) : GFeeValue :=
